@@ -297,6 +297,17 @@ def oktaRedeem (t : TokenResp) (u : UserinfoResp) : LoginRes × List String :=
       | _ => (.error, ["token", "userinfo"])
   | _ => (.error, ["token"])
 
+/-- `AmazonCognitoProvider.Redeem`: token call, then `/oauth2/userInfo` with the access token. Cognito's userinfo carries no
+    `email_verified` claim the provider looks at: the e-mail it returns is the e-mail of the session. -/
+def cognitoRedeem (t : TokenResp) (u : UserinfoResp) : LoginRes × List String :=
+  match t with
+  | .ok access rt _ ttl =>
+    if access = "" then (.error, ["token"])
+    else match u with
+      | .ok e _ => if e = [] then (.error, ["token", "userinfo"]) else (.session e access rt ttl, ["token", "userinfo"])
+      | _ => (.error, ["token", "userinfo"])
+  | _ => (.error, ["token"])
+
 /-- the callback after Redeem: nonce check, redirect re-validation, e-mail rule -/
 structure CbIn where
   errorParam : String
